@@ -106,11 +106,12 @@ def build_kwargs(case) -> dict:
         elif case.get("req_form") == "list" and kind not in ("str", "widestr"):
             kw["expected_groups"] = list(vals)
         if case.get("req_range"):
-            # the same labels as a pandas RangeIndex (they must form an increasing arithmetic progression)
+            # the same labels as a pandas RangeIndex (they must form an arithmetic progression)
             import pandas as pd
 
             step = vals[1] - vals[0] if len(vals) > 1 else 1
-            assert step > 0 and all(b - a == step for a, b in zip(vals, vals[1:])), vals
+            # (a negative step gives a DESCENDING RangeIndex: with sort=True the labels come back ascending all the same)
+            assert step != 0 and all(b - a == step for a, b in zip(vals, vals[1:])), vals
             kw["expected_groups"] = pd.RangeIndex(vals[0], vals[-1] + step, step)
     if not case.get("sort", True):
         kw["sort"] = False
